@@ -445,7 +445,7 @@ func (mpt *MerklePatriciaTrie) delete(key Key, prefix, path Path) (Node, Key, er
 		return nil, nil, err
 	}
 	if len(path) == 0 {
-		return mpt.deleteAfterPathTraversal(node)
+		return mpt.deleteAfterPathTraversal(node, prefix)
 	}
 	return mpt.deleteAtNode(key, node, prefix, path)
 }
@@ -636,51 +636,7 @@ func (mpt *MerklePatriciaTrie) deleteAtNode(key Key, node Node, prefix, path Pat
 					tempNode := nodeImpl.Clone().(*FullNode)
 					// clear the child being deleted
 					tempNode.PutChild(path[0], nil)
-					var otherChildKey []byte
-					var oidx byte
-					for idx, pe := range PathElements {
-						child := tempNode.GetChild(pe)
-						if child != nil {
-							oidx = byte(idx)
-							otherChildKey = child
-							break
-						}
-					}
-					ochild, err := mpt.getNode(otherChildKey)
-					if err != nil {
-						return nil, nil, err
-					}
-					npath := []byte{nodeImpl.indexToByte(oidx)}
-					var nnode Node
-					switch onodeImpl := ochild.(type) {
-					case *FullNode:
-						nnode = NewExtensionNode(npath, otherChildKey)
-					case *LeafNode:
-						if onodeImpl.Path != nil {
-							npath = append(npath, onodeImpl.Path...)
-						}
-						lnode := ochild.Clone().(*LeafNode)
-						lnode.SetOrigin(mpt.Version)
-						lnode.Path = npath
-						lnode.Prefix = concat(prefix)
-						nnode = lnode
-						if err := mpt.deleteNode(ochild); err != nil {
-							return nil, nil, err
-						}
-					case *ExtensionNode:
-						if onodeImpl.Path != nil {
-							npath = append(npath, onodeImpl.Path...)
-						}
-						enode := ochild.Clone().(*ExtensionNode)
-						enode.Path = npath
-						nnode = enode
-						if err := mpt.deleteNode(ochild); err != nil {
-							return nil, nil, err
-						}
-					default:
-						panic(fmt.Sprintf("unknown node type: %T %v %T", ochild, ochild, mpt.db))
-					}
-					return mpt.insertNode(node, nnode)
+					return mpt.liftOnlyChild(node, tempNode, prefix)
 				}
 			}
 		}
@@ -783,7 +739,58 @@ func (mpt *MerklePatriciaTrie) insertAfterPathTraversal(value MPTSerializable, n
 	}
 }
 
-func (mpt *MerklePatriciaTrie) deleteAfterPathTraversal(node Node) (Node, Key, error) {
+// liftOnlyChild replaces node, a branch left with a single child and no value (tempNode is
+// that branch), by the child itself with the child's position prepended to its path: a branch
+// with one child and no value is not a canonical node
+func (mpt *MerklePatriciaTrie) liftOnlyChild(node Node, tempNode *FullNode, prefix Path) (Node, Key, error) {
+	var otherChildKey []byte
+	var oidx byte
+	for idx, pe := range PathElements {
+		child := tempNode.GetChild(pe)
+		if child != nil {
+			oidx = byte(idx)
+			otherChildKey = child
+			break
+		}
+	}
+	ochild, err := mpt.getNode(otherChildKey)
+	if err != nil {
+		return nil, nil, err
+	}
+	npath := []byte{tempNode.indexToByte(oidx)}
+	var nnode Node
+	switch onodeImpl := ochild.(type) {
+	case *FullNode:
+		nnode = NewExtensionNode(npath, otherChildKey)
+	case *LeafNode:
+		if onodeImpl.Path != nil {
+			npath = append(npath, onodeImpl.Path...)
+		}
+		lnode := ochild.Clone().(*LeafNode)
+		lnode.SetOrigin(mpt.Version)
+		lnode.Path = npath
+		lnode.Prefix = concat(prefix)
+		nnode = lnode
+		if err := mpt.deleteNode(ochild); err != nil {
+			return nil, nil, err
+		}
+	case *ExtensionNode:
+		if onodeImpl.Path != nil {
+			npath = append(npath, onodeImpl.Path...)
+		}
+		enode := ochild.Clone().(*ExtensionNode)
+		enode.Path = npath
+		nnode = enode
+		if err := mpt.deleteNode(ochild); err != nil {
+			return nil, nil, err
+		}
+	default:
+		panic(fmt.Sprintf("unknown node type: %T %v %T", ochild, ochild, mpt.db))
+	}
+	return mpt.insertNode(node, nnode)
+}
+
+func (mpt *MerklePatriciaTrie) deleteAfterPathTraversal(node Node, prefix Path) (Node, Key, error) {
 	switch nodeImpl := node.(type) {
 	case *FullNode:
 		if !nodeImpl.HasValue() {
@@ -795,6 +802,10 @@ func (mpt *MerklePatriciaTrie) deleteAfterPathTraversal(node Node) (Node, Key, e
 		// if nodeImpl.HasValue() {
 		// 	mpt.ChangeCollector.DeleteChange(nodeImpl.Value)
 		// }
+		if nnode.GetNumChildren() == 1 {
+			// without its value the branch only leads to one child: lift the child up
+			return mpt.liftOnlyChild(node, nnode, prefix)
+		}
 		return mpt.insertNode(node, nnode)
 	case *LeafNode:
 		if len(nodeImpl.Path) > 0 {
